@@ -71,6 +71,9 @@ def plan(tier, seed):
         oshape, okind = None, "same"
         if center and rng.random() < 0.45:
             oshape = [max(1, s + int(rng.integers(-3, 4))) for s in shape]
+            if ndim >= 2 and i % 5 == 4:
+                # pad one axis and crop another with the same number of elements
+                oshape = [int(v) for v in rng.permutation(shape)]
             okind = "".join("g" if o > s else "s" if o < s else "e"
                             for o, s in zip(oshape, shape))
         P.add("fft_matrix", inverse=bool(rng.random() < 0.5), shape=shape, axes=axes,
